@@ -122,7 +122,7 @@ def sm_term(m):
     return t[t.index('{|'):-1]
 
 
-def run_session(msgs, default, fail_at=None):
+def run_session(msgs, default, fail_at=None, bind_eof_on=()):
     loop = vsess.VLoop()
     asyncio.set_event_loop(loop)
     smsc = vsess.FakeSMSC(loop)
@@ -159,7 +159,10 @@ def run_session(msgs, default, fail_at=None):
             for p in vsess.split_pdus(pdu)[0]:
                 cmd, seq = struct.unpack('>I', p[4:8])[0], struct.unpack('>I', p[12:16])[0]
                 if cmd in (1, 2, 9):
-                    conn.send(vsess.bind_resp_for(p))
+                    if conn.index in bind_eof_on:
+                        conn.eof(delay=0.01)          # the SMSC (restarting) accepts the connection and closes it before answering the bind
+                    else:
+                        conn.send(vsess.bind_resp_for(p))
                 elif cmd == 4:
                     conn.send(smppref.header(0x80000004, 0, seq, b'id%d\x00' % seq), delay=0.01)
         smsc.on_pdu = on_pdu
@@ -306,7 +309,8 @@ def run(ctx):
         if n_writes and rng.random() < 0.5:
             k = rng.randint(1, n_writes)
             msgs2 = [m for m in (gen_like(m0) for m0 in msgs_copy)]
-            obs2 = run_session(msgs2, default, fail_at=k)
+            beo = rng.choice([(), (), (1,), (1, 2)])     # the first reconnect(s) may find an SMSC that closes the connection during the bind
+            obs2 = run_session(msgs2, default, fail_at=k, bind_eof_on=beo)
             ev2 = []
             for e in obs2['log']:
                 if e[0] == 'sending' and isinstance(e[1], SubmitSm):
@@ -315,12 +319,13 @@ def run(ctx):
                     ev2.append(('e', e[2], e[1].log_id))
             wire2 = [p for p in obs2['wire'] if struct.unpack('>I', p[4:8])[0] == 4]
             ctx.count('transport_fault_runs')
-            rp2 = dict(rp, transport_failure_at_submit_sm_write=k)
+            rp2 = dict(rp, transport_failure_at_submit_sm_write=k, bind_eof_on=list(beo))
             if obs2['start_done']:
                 ctx.violation(f'start() ended with {obs2["start_exc"]!r} after a transport failure during a write', rp2)
             else:
-                if obs2['conns'] < 2:
-                    ctx.violation('no reconnect after a transport failure during a write', rp2)
+                if obs2['conns'] < 2 + len(beo):
+                    ctx.violation(f'{obs2["conns"]} connection(s) opened after a transport failure during a write'
+                                  + (f' and {len(beo)} reconnect(s) closed by the SMSC during the bind' if beo else ''), rp2)
                 announced = [e[1] for e in ev2 if e[0] == 'w']
                 lost = [a for a in announced if a not in wire2]
                 in_flight = announced[k - 1] if len(announced) >= k else None
@@ -405,7 +410,7 @@ def replay(ctx, path):
         return 1 if bad or obs['start_done'] else 0
     if rp.get('queue_pickle'):
         msgs = core.unpickle_b64(rp['queue_pickle'])
-        obs = run_session(msgs, rp.get('default', 'gsm0338'), fail_at=rp.get('transport_failure_at_submit_sm_write'))
+        obs = run_session(msgs, rp.get('default', 'gsm0338'), fail_at=rp.get('transport_failure_at_submit_sm_write'), bind_eof_on=tuple(rp.get('bind_eof_on', ())))
         print('replay: start() done:', obs['start_done'], repr(obs['start_exc']), '| sender raised:', obs['sender_raised'][:1], '| connections:', obs['conns'])
         for e in obs['log']:
             if e[0] == 'sending' and isinstance(e[1], SubmitSm):
